@@ -379,6 +379,11 @@ where
         let actions_sv = SparseVec::<usize>::from(&actions, 0, usize::from(grm.tokens_len()));
         let gotos_sv = SparseVec::<usize>::from(&gotos, 0, usize::from(grm.rules_len()));
 
+        // Shift/reduce conflicts are found while iterating over (randomly seeded) hashmaps of
+        // edges: put the conflicts into a fixed order so that the same grammar always leads to the
+        // same `StateTable` (and thus to byte-identical serialised tables).
+        reduce_reduce.sort_unstable_by_key(|&(tidx, pidx1, pidx2, stidx)| (stidx, tidx, pidx1, pidx2));
+        shift_reduce.sort_unstable_by_key(|&(tidx, pidx, stidx)| (stidx, tidx, pidx));
         let conflicts = if !(reduce_reduce.is_empty() && shift_reduce.is_empty()) {
             Some(Conflicts {
                 reduce_reduce,
